@@ -446,6 +446,9 @@ func shortVal(v ssa.Value) string {
 	return normGuard(core.Key(v))
 }
 
+// ErrorExits is errorExits for the debug subcommand.
+func ErrorExits(fn *ssa.Function, errIdx int) []string { return errorExits(fn, errIdx) }
+
 // errorExits lists, for every return of a non-nil error, the innermost guard.
 func errorExits(fn *ssa.Function, errIdx int) []string {
 	var out []string
@@ -492,7 +495,7 @@ var errorExitTable = []struct {
 	{"C15", "controller/legacy", "k8scache.GetTerminatingPods", 1, []string{`Errorf when !c.listers.hasPodLister`, `List when List != nil`, `buildLabelSelector when buildLabelSelector != nil`}, "a dropped or inverted test lets a missing, foreign or malformed object through (or rejects a good one, which falls back to the default certificate / drops the declaration)"},
 	{"C12", "haproxy", "instance.HAProxyUpdate", 0, []string{`Errorf when WriteBackendMaps != nil`, `Errorf when WriteFrontendMaps != nil`, `Errorf when WriteTCPServicesMaps != nil`, `Errorf when writeConfig != nil`, `Errorf when writeCrtLists != nil`, `Reload when &i.options.ReloadQueue == nil`}, "a failed step that is not reported is never retried: the files on disk and the running process stay behind the model"},
 	{"C12", "haproxy", "instance.Reload", 0, []string{`Errorf when reloadHAProxy != nil`}, "a failed step that is not reported is never retried: the files on disk and the running process stay behind the model"},
-	{"C12", "haproxy", "instance.writeConfig", 0, []string{`Write when Write != nil`, `Write when Write != nil`, `Write when Write != nil`, `Write/Write/WriteOutput when Write == nil`, `WriteOutput when WriteOutput != nil`, `WriteOutput when WriteOutput != nil`}, "a failed step that is not reported is never retried: the files on disk and the running process stay behind the model"},
+	{"C12", "haproxy", "instance.writeConfig", 0, []string{`Write when Write != nil`, `Write when Write != nil`, `Write when Write != nil`, `Write/WriteOutput when Write == nil`, `WriteOutput when WriteOutput != nil`, `WriteOutput when WriteOutput != nil`}, "a failed step that is not reported is never retried: the files on disk and the running process stay behind the model"},
 	{"C12", "haproxy", "instance.writeCrtLists", 0, []string{`WriteOutput when WriteOutput != nil`}, "a failed step that is not reported is never retried: the files on disk and the running process stay behind the model"},
 	{"C12", "haproxy", "config.WriteFrontendMaps", 0, []string{`WriteOutput when WriteOutput != nil`, `writeMaps when writeMaps != nil`}, "a failed step that is not reported is never retried: the files on disk and the running process stay behind the model"},
 	{"C12", "haproxy", "config.WriteBackendMaps", 0, []string{`writeMaps when after the loop`}, "a failed step that is not reported is never retried: the files on disk and the running process stay behind the model"},
@@ -936,28 +939,40 @@ func readerDispatch(c *core.Ctx) {
 }
 
 // errSource names where a returned error value comes from (the call that produced it).
-func errSource(v ssa.Value) string {
+func errSource(v ssa.Value) string { return errSourceSeen(v, map[ssa.Value]bool{}) }
+
+func errSourceSeen(v ssa.Value, visiting map[ssa.Value]bool) string {
 	switch x := v.(type) {
 	case *ssa.Extract:
-		return errSource(x.Tuple)
+		return errSourceSeen(x.Tuple, visiting)
 	case *ssa.Call:
 		return shortVal(x)
 	case *ssa.Phi:
+		if visiting[x] {
+			return "" // loop-carried: the value of an earlier iteration
+		}
+		visiting[x] = true
+		defer delete(visiting, x)
 		var parts []string
 		seen := map[string]bool{}
 		for _, e := range x.Edges {
-			p := errSource(e)
-			if !seen[p] {
-				seen[p] = true
-				parts = append(parts, p)
+			p := errSourceSeen(e, visiting)
+			if p == "" {
+				p = "carried"
+			}
+			for _, q := range strings.Split(p, "/") {
+				if !seen[q] {
+					seen[q] = true
+					parts = append(parts, q)
+				}
 			}
 		}
 		sort.Strings(parts)
 		return strings.Join(parts, "/")
 	case *ssa.MakeInterface:
-		return errSource(x.X)
+		return errSourceSeen(x.X, visiting)
 	case *ssa.UnOp:
-		return errSource(x.X)
+		return errSourceSeen(x.X, visiting)
 	case *ssa.Global:
 		return x.Name()
 	case *ssa.Const:
